@@ -119,7 +119,10 @@ class FunctionInfo:
 
     @property
     def decorators(self) -> list[str]:
-        out = []
+        cached = self.__dict__.get("_decorators")
+        if cached is not None:
+            return cached
+        out = self.__dict__["_decorators"] = []
         for dec in self.node.decorator_list:
             target = dec.func if isinstance(dec, ast.Call) else dec
             out.append(dotted(target) or unparse(target))
@@ -139,7 +142,11 @@ class FunctionInfo:
 
     @property
     def is_generator(self) -> bool:
-        return any(isinstance(n, (ast.Yield, ast.YieldFrom)) for n in walk_no_nested(self.node))
+        cached = self.__dict__.get("_is_generator")
+        if cached is None:
+            cached = any(isinstance(n, (ast.Yield, ast.YieldFrom)) for n in walk_no_nested(self.node))
+            self.__dict__["_is_generator"] = cached
+        return cached
 
     @property
     def params(self) -> list[str]:
